@@ -172,6 +172,9 @@ class Scenario:
         self._sensor_store = {}
         self._estimate_store = {}
 
+        self._unsaved_epochs: dict[str, JulianDate] = {}
+        """``dict``: epochs past the configured stop time, reached since the last output, by ISO timestamp."""
+
         # Save initial states to database
         self.saveDatabaseOutput()
 
@@ -217,20 +220,22 @@ class Scenario:
 
     def saveDatabaseOutput(self) -> None:  # noqa: C901
         """Save Truth, Estimate, and Observation data to the output database."""
-        # Grab `TruthEphemeris` for targets & sensors
-        if not self.database.getData(
-            Query(Epoch).filter(
-                Epoch.timestampISO == self.clock.datetime_epoch.isoformat(timespec="microseconds"),
-            ),
-            multi=False,
-        ):
-            self.database.insertData(
-                Epoch(
-                    julian_date=self.clock.julian_date_epoch,
-                    timestampISO=self.clock.datetime_epoch.isoformat(timespec="microseconds"),
-                ),
-            )
+        # [NOTE]: The clock only inserts epochs up to the configured stop time. Data collected since the last
+        #   output (observations, filter steps) refers to the epochs of the steps in between as well.
+        unsaved_epochs, self._unsaved_epochs = self._unsaved_epochs, {}
+        unsaved_epochs[self.clock.datetime_epoch.isoformat(timespec="microseconds")] = (
+            self.clock.julian_date_epoch
+        )
+        for timestamp_iso, julian_date in unsaved_epochs.items():
+            if not self.database.getData(
+                Query(Epoch).filter(Epoch.timestampISO == timestamp_iso),
+                multi=False,
+            ):
+                self.database.insertData(
+                    Epoch(julian_date=julian_date, timestampISO=timestamp_iso),
+                )
 
+        # Grab `TruthEphemeris` for targets & sensors
         output_data = [tgt.getCurrentEphemeris() for tgt in self.target_agents.values()]
         output_data.extend(sensor.getCurrentEphemeris() for sensor in self.sensor_agents.values())
 
@@ -312,6 +317,10 @@ class Scenario:
         self.clock.ticToc()
         # Update Julian date properly
         self.current_julian_date = self.clock.julian_date_epoch
+        if self.clock.time > self.clock.time_span:
+            self._unsaved_epochs[self.clock.datetime_epoch.isoformat(timespec="microseconds")] = (
+                self.current_julian_date
+            )
 
         # Propagate truth model & predict estimate forward in time.
         for target_agent in self.target_agents.values():
